@@ -210,8 +210,8 @@ def oracle_config(ctx, fam, tails, K, regime, box, B, extra, gen, npts=64):
         ctx.fail('jump at a knot', case, match={'fam': fam, 'symptom': 'jump'}); return
     # --- the other half of "bijection of the box": the inverse direction is an increasing map of [bottom, top] onto
     # [left, right], and undoes the forward direction
-    tolx = (1e-4 if fam == 'cubic' else 1e-6) * (hi - lo)
-    cond = 1e-13 * (1 + abs(top) + abs(bot)) * torch.exp(-ld)
+    tolx = (1e-4 if fam == 'cubic' else 1e-9) * (hi - lo)
+    cond = 1e-12 * (1 + abs(top) + abs(bot)) * torch.exp(-ld)
     kind, xr, ldr = S.impl_call(fam, y.clamp(bot, top), fl, True, tails, box, B, extra=extra)
     if kind != 'ok':
         ctx.fail('inverse rejects forward images of in-domain points with %s' % kind, case, match={'fam': fam, 'symptom': 'inverse-raises'}); return
